@@ -46,6 +46,19 @@ PROPS = {
         "design_ref": "DESIGN.md section 4, C10",
         "assumptions": ["input bytes 0..255", "a substitution of the first start delimiter by another valid delimiter is outside the single-byte clause (DESIGN 4.0)"],
     },
+    "C20": {
+        "claimed": False,
+        "coq": "Properties/C20.v",
+        "domains": ["prm"],
+        "nontrivial": ["set:ok", "set:err", "wv:ok", "wv:err", "new:"],
+        "rule": "TODO",
+        "trusted_base": ["hand model coq/Model/Prm.v of gsd-parser/src/lib.rs (write_value_to_slice, constraints, PrmBuilder)"],
+        "technique": "TODO",
+        "level_text": "TODO",
+        "level_note": "TODO",
+        "design_ref": "DESIGN.md section 4, C20",
+        "assumptions": [],
+    },
 }
 
 NOT_CLAIMED = {}
